@@ -378,6 +378,41 @@ def check(facts, rep, tier, cfg):
     import_outbound_queue_rule(facts, rep, tier, cfg, "C16.S1")
     import adapter
     adapter.check_adapter(facts, rep, "C16.S8")
+    # ---- R6 the ping timer runs with the configured interval itself
+    rep.rule("C16.R6", "a ping is sent every I: the period of the timer built from the configured keepalive interval is that duration itself "
+                       "(conversion OptionalDuration -> OptionalInterval through moves only) - a clamped / rounded period makes pings rarer "
+                       "than the interval the timeout was clamped against, and a live peer is declared dead")
+    from an import inexact_steps as _ix6
+    k6 = 0
+    for b in crate.bodies:
+        if "/timing.rs" not in b.file or "::tests::" in b.path:
+            continue
+        tr6 = None
+        for bi, t in b.calls():
+            c = callee(t)
+            if c and c["name"] in ("map", "and_then") and len(t["args"]) > 1:
+                tr6 = tr6 or Tracer(facts, b)
+                if "time::interval" in fmt(tr6.operand(t["args"][1])) and not any(x.kind == "agg" for x in walk(tr6.operand(t["args"][1]))):
+                    k6 += 1
+                    rep.analysed(b)
+                    rep.ok("C16.R6", "interval-period-exact", "%s (%s)" % (loc_str(t["loc"]), b.path), "period = configured duration (interval passed as the mapper)")
+                continue
+            if not (c and c["name"] in ("interval", "interval_at") and "time" in c["path"] and t["args"]):
+                continue
+            tr6 = tr6 or Tracer(facts, b)
+            k6 += 1
+            rep.analysed(b)
+            w6 = "%s (%s)" % (loc_str(t["loc"]), b.path)
+            arg = tr6.operand(t["args"][-1])
+            st6 = _ix6(arg, lambda y: y.kind == "param" or (y.kind == "field" and y[2] == "0"), None)
+            if st6:
+                rep.bad("C16.R6", "interval-period-exact", w6,
+                        "the ping timer's period is computed (`%s`), not the configured interval: for some settings (e.g. sub-second "
+                        "intervals) pings are sent less often than every I while the timeout stays clamped against I" % st6[0])
+            else:
+                rep.ok("C16.R6", "interval-period-exact", w6, "period = configured duration")
+    if "tokio-time" in crate.features:
+        rep.floor("C16.R6", "timers built from the keepalive interval", k6, 1)
     rep.rule("C16.S7", "who-may: the functions that touch the critical resources behind this property are those of the reference tree (flow table, closed flag, per-stream / datagram / outbound queues, last-pong timestamp, client id maps, shared TLS identity)")
     import whomay
     whomay.check(facts, rep, "C16.S7", "C16")
